@@ -624,6 +624,7 @@ func (svr *Server) getSession(svc *service, req *message.ConnectMessage, resp *m
 		if svc.sess, err = svr.sessMgr.New(cid); err != nil {
 			return err
 		}
+		verifYield("session.new", svc)
 	}
 
 	if !resp.SessionPresent() {
